@@ -131,6 +131,8 @@ type xl struct {
 	loops       []string
 	inouts      []tvar               // in-out parameters, in the order of fn.inout
 	subst       map[*ast.CallExpr]tx // calls hoisted out of an expression
+	defers      []string             // deferred calls registered so far (top level only), in source order
+	depth       int                  // block nesting: 1 = the function body
 	hoistLeaves int                  // operands seen so far while walking an expression in evaluation order
 	hoistFields int                  // … of which field reads, constants and calls left in place
 	stmts_      int
@@ -146,8 +148,8 @@ func (x *xl) fail(n ast.Node, format string, a ...any) {
 	panic(xerr{fmt.Sprintf(format, a...) + pos})
 }
 
-func (x *xl) push() { x.scopes = append(x.scopes, map[string]tvar{}) }
-func (x *xl) pop()  { x.scopes = x.scopes[:len(x.scopes)-1] }
+func (x *xl) push() { x.scopes = append(x.scopes, map[string]tvar{}); x.depth = len(x.scopes) - 1 }
+func (x *xl) pop()  { x.scopes = x.scopes[:len(x.scopes)-1]; x.depth = len(x.scopes) - 1 }
 
 func (x *xl) lookup(name string) (tvar, bool) {
 	for i := len(x.scopes) - 1; i >= 0; i-- {
@@ -970,6 +972,8 @@ func (x *xl) callExpr(c *ast.CallExpr) (tx, bool) {
 		args = append(args, recvLean)
 		addArgs()
 		pendingCall = &tcall{ctor: "callX", f: sh.f, args: args, res: sh.res, pre: []string{recvLV}}
+		x.addTrace(c, sh, key, args)
+		pendingCall.pureTrace = false
 		return tx{}, true
 	case "funOn":
 		if !hasRecv {
@@ -1356,6 +1360,8 @@ func (x *xl) stmt1(s ast.Stmt) string {
 		return x.decl(t)
 	case *ast.ReturnStmt:
 		return x.ret(t)
+	case *ast.DeferStmt:
+		return x.deferStmt(t)
 	case *ast.BranchStmt:
 		if t.Label != nil {
 			x.fail(s, "labelled %s is outside the subset", t.Tok)
@@ -1710,12 +1716,50 @@ func (x *xl) decl(t *ast.DeclStmt) string {
 	return ""
 }
 
+// ret translates `return …`.  With deferred calls pending (see deferStmt) the results are evaluated first, then the
+// deferred calls run, last registered first, then the function returns — Go's order.
 func (x *xl) ret(t *ast.ReturnStmt) string {
+	pre, vals := x.retParts(t)
+	if len(x.defers) == 0 {
+		return block(append(pre, "(.ret ["+strings.Join(vals, ", ")+"])"))
+	}
+	// results → fresh locals (unless they already are plain locals), deferred calls, return
+	var tmps []string
+	var lvs []string
+	for i, v := range vals {
+		typ := "?"
+		if i < len(x.results) {
+			typ = x.results[i]
+		}
+		tmp := fmt.Sprintf("l%d", x.nloc)
+		x.nloc++
+		x.legend = append(x.legend, tmp+" = (result "+strconv.Itoa(i)+" held while the deferred calls run) "+typ)
+		lvs = append(lvs, "(.loc "+leanStr(tmp)+")")
+		tmps = append(tmps, "(.loc "+leanStr(tmp)+")")
+		_ = v
+	}
+	out := append([]string{}, pre...)
+	if len(vals) > 0 {
+		out = append(out, "(.assign ["+strings.Join(lvs, ", ")+"] ["+strings.Join(vals, ", ")+"])")
+	}
+	for k := len(x.defers) - 1; k >= 0; k-- {
+		out = append(out, x.defers[k])
+	}
+	out = append(out, "(.ret ["+strings.Join(tmps, ", ")+"])")
+	return block(out)
+}
+
+// retParts: statements to run first, and the result expressions
+func (x *xl) retParts(t *ast.ReturnStmt) ([]string, []string) {
 	if len(x.inouts) > 0 {
 		if len(x.results) != 0 {
 			x.fail(t, "in-out parameters are supported for functions without declared results only")
 		}
-		return "(.ret [" + x.inoutVals() + "])"
+		var rs []string
+		for _, v := range x.inouts {
+			rs = append(rs, "(.loc "+leanStr(v.lean)+")")
+		}
+		return nil, rs
 	}
 	if len(t.Results) == 0 {
 		var rs []string
@@ -1725,38 +1769,68 @@ func (x *xl) ret(t *ast.ReturnStmt) string {
 		if len(x.results) != len(x.named) {
 			x.fail(t, "bare return in a function with unnamed results")
 		}
-		return "(.ret [" + strings.Join(rs, ", ") + "])"
+		return nil, rs
 	}
-	if len(t.Results) == 1 && len(x.results) > 1 {
-		x.fail(t, "return f() forwarding several results is outside the subset")
-	}
-	if len(t.Results) != len(x.results) {
-		x.fail(t, "return arity")
-	}
-	// `return f(...)` with a statement-level call
+	// `return f(...)` with a statement-level call, possibly forwarding several results
 	if len(t.Results) == 1 {
 		if c, ok := t.Results[0].(*ast.CallExpr); ok {
 			r, isStmt := x.callExpr(c)
 			if isStmt {
 				pc := pendingCall
 				pendingCall = nil
-				if pc.ctor == "mut" || len(pc.res) != 1 || pc.res[0] != x.results[0] {
+				if pc.ctor == "mut" || pc.ctor == "nop" || len(pc.res) != len(x.results) {
 					x.fail(t, "return of call %s", exprString(c.Fun))
 				}
-				tmp := tvar{fmt.Sprintf("l%d", x.nloc), pc.res[0]}
-				x.nloc++
-				x.legend = append(x.legend, tmp.lean+" = (value of the returned call) "+tmp.typ)
-				call := x.emitCall(t, pc, []string{"(.loc " + leanStr(tmp.lean) + ")"}, []string{tmp.typ})
-				return block([]string{call, "(.ret [(.loc " + leanStr(tmp.lean) + ")])"})
+				var lvs, typs, rs []string
+				for i, rt := range pc.res {
+					if rt != x.results[i] {
+						x.fail(t, "result %d of %s has type %s, the function returns %s", i, exprString(c.Fun), rt, x.results[i])
+					}
+					tmp := tvar{fmt.Sprintf("l%d", x.nloc), rt}
+					x.nloc++
+					x.legend = append(x.legend, tmp.lean+" = (value of the returned call) "+tmp.typ)
+					lvs, typs, rs = append(lvs, "(.loc "+leanStr(tmp.lean)+")"), append(typs, rt), append(rs, "(.loc "+leanStr(tmp.lean)+")")
+				}
+				return []string{x.emitCall(t, pc, lvs, typs)}, rs
 			}
-			return "(.ret [" + x.coerce(t, r, x.results[0]).lean + "])"
+			if len(x.results) != 1 {
+				x.fail(t, "return arity")
+			}
+			return nil, []string{x.coerce(t, r, x.results[0]).lean}
 		}
+	}
+	if len(t.Results) != len(x.results) {
+		x.fail(t, "return arity")
 	}
 	var rs []string
 	for i, r := range t.Results {
 		rs = append(rs, x.coerce(r, x.expr(r), x.results[i]).lean)
 	}
-	return "(.ret [" + strings.Join(rs, ", ") + "])"
+	return nil, rs
+}
+
+// deferStmt: `defer recv.M()` — only at the top level of the function body (so it is registered unconditionally and
+// once), only a call WITHOUT arguments whose shim is a recorded external intrinsic.  The call is executed by every
+// later `return` (and at the end of a body without results), after the results have been evaluated.  A panic would
+// also run it; GoMini's panic outcome carries no state, and the theorems show there is no panic.
+func (x *xl) deferStmt(t *ast.DeferStmt) string {
+	if x.depth != 1 {
+		x.fail(t, "defer below the top level of the function body is outside the subset")
+	}
+	if len(t.Call.Args) != 0 {
+		x.fail(t, "defer of a call with arguments is outside the subset")
+	}
+	_, isStmt := x.callExpr(t.Call)
+	if !isStmt {
+		x.fail(t, "deferred call %s must be a recorded intrinsic", exprString(t.Call.Fun))
+	}
+	pc := pendingCall
+	pendingCall = nil
+	if pc.ctor != "callX" || len(pc.pre) != 0 {
+		x.fail(t, "deferred call %s must be a recorded external intrinsic", exprString(t.Call.Fun))
+	}
+	x.defers = append(x.defers, x.emitCall(t, pc, nil, nil))
+	return ".skip"
 }
 
 func (x *xl) switchStmt(t *ast.SwitchStmt) string {
@@ -2017,6 +2091,12 @@ func (x *xl) function() (lean string, err error) {
 	}
 	if len(x.inouts) > 0 {
 		body = block([]string{body, "(.ret [" + x.inoutVals() + "])"})
+	} else if len(x.defers) > 0 && len(x.results) == 0 {
+		end := []string{body}
+		for k := len(x.defers) - 1; k >= 0; k-- {
+			end = append(end, x.defers[k])
+		}
+		body = block(end)
 	}
 	var sb strings.Builder
 	recv := ""
